@@ -993,7 +993,10 @@ PROPS = {
         theorems={t: [] for t in ["C02_gc_preserves_reachable", "C02_mark_sound", "C02_mark_terminates",
                                   "C02_vm_initial_states_closed", "C02_vm_step_keeps_closed",
                                   "C02_vm_run_keeps_closed", "C02_collection_between_instructions",
-                                  "C02_collection_after_run", "C02_operands_reachable"]},
+                                  "C02_collection_after_run", "C02_operands_reachable",
+                                  "C02_alloc_point_temporaries_rooted", "C02_collection_with_guards",
+                                  "C02_collection_at_alloc_point", "C02_register_upvalue_after_copylast",
+                                  "C02_alloc_points_match_step"]},
         n_quick=420, n_thorough=3000,
         gates=["prog=host_table_6", "prog=host_table_13", "prog=host_table_29", "sched=every", "sched=single", "sched=subset", "gc_case", "prog=closures", "prog=stdlib_object_keys",
                "prog=inline_closure", "prog=overwrite_equal_keys"],
